@@ -161,6 +161,23 @@ func round(i int, seed int64, extra []string) any {
 // writes (registers get unique values, so a committed write that is absent is a lost write).
 func classify(init map[string]string, committed []T, final map[string]string) string {
 	lostRemove, lostUpdate, lostAdd, other := 0, 0, 0, 0
+	// a committed remove that reported "not there" for a key of the initial state that no committed
+	// transaction ever removed or replaced: the key was there all along
+	everRemoved := map[string]bool{}
+	for _, t := range committed {
+		for _, s := range t.Steps {
+			if (s.Kind == "remove" && s.OK) || s.Kind == "replace" {
+				everRemoved[s.K] = true
+			}
+		}
+	}
+	for _, t := range committed {
+		for _, s := range t.Steps {
+			if _, inInit := init[s.K]; s.Kind == "remove" && !s.OK && inInit && !everRemoved[s.K] {
+				return "CLASS=existing-key-reported-absent"
+			}
+		}
+	}
 	lastW := map[string]bool{}
 	written := map[string]map[string]bool{}
 	removed := map[string]bool{}
@@ -175,7 +192,9 @@ func classify(init map[string]string, committed []T, final map[string]string) st
 			case "add":
 				lastW[s.K] = true
 			case "remove":
-				removed[s.K] = true
+				if s.OK {
+					removed[s.K] = true
+				}
 			}
 		}
 	}
@@ -274,107 +293,151 @@ func genTxn(rnd interface{ Intn(int) int }, id string, nReg, nSet int) plannedTx
 	return p
 }
 
-func execTxn(db sopx.DB, clock *conc.Clock, p plannedTxn) T {
-	t := T{ID: p.ID, Mode: p.Mode}
+// live is one open transaction being driven step by step.
+type live struct {
+	t    T
+	p    plannedTxn
+	tx   sop.Transaction
+	b    btree.BtreeInterface[string, string]
+	n    int
+	dead bool // an operation failed and the transaction was rolled back
+}
+
+func beginLive(db sopx.DB, p plannedTxn) *live {
+	l := &live{t: T{ID: p.ID, Mode: p.Mode}, p: p}
 	mode := sop.ForWriting
 	if p.Mode == "R" {
 		mode = sop.ForReading
 	}
 	tx, err := db.Begin(mode, 2*time.Minute)
 	if err != nil {
-		t.OpErr = "begin: " + err.Error()
-		return t
+		l.t.OpErr, l.dead = "begin: "+err.Error(), true
+		return l
 	}
-	var b btree.BtreeInterface[string, string]
-	b, err = sopx.Open[string, string](db, tx, "s")
+	l.tx = tx
+	l.b, err = sopx.Open[string, string](db, tx, "s")
 	if err != nil {
-		t.OpErr = "open: " + err.Error()
+		l.t.OpErr, l.dead = "open: "+err.Error(), true
 		tx.Rollback(conc.Ctx)
-		return t
 	}
-	n := 0
-	fail := func(e error) T {
-		t.OpErr = e.Error()
-		tx.Rollback(conc.Ctx)
-		return t
+	return l
+}
+
+func (l *live) fail(e error) {
+	l.t.OpErr, l.dead = e.Error(), true
+	l.tx.Rollback(conc.Ctx)
+}
+
+// step runs one planned step; after a failed operation the transaction is rolled back (dead).
+func (l *live) step(s plannedStep) {
+	if l.dead {
+		return
 	}
-	for _, s := range p.Steps {
-		st := Step{Kind: s.Kind, K: s.K}
-		switch s.Kind {
-		case "read", "rmw":
-			ok, err := b.Find(conc.Ctx, s.K, false)
-			if err != nil {
-				return fail(err)
-			}
-			if !ok {
-				return fail(fmt.Errorf("register %s not found", s.K)) // registers are never removed
-			}
-			v, err := b.GetCurrentValue(conc.Ctx)
-			if err != nil {
-				return fail(err)
-			}
-			st.Saw, st.OK = v, true
-			if s.Kind == "rmw" {
-				n++
-				st.W = fmt.Sprintf("%s.%d", p.ID, n)
-				ok, err := b.UpdateCurrentValue(conc.Ctx, st.W)
-				if err != nil {
-					return fail(err)
-				}
-				if !ok {
-					return fail(fmt.Errorf("UpdateCurrentValue(%s) returned false", s.K))
-				}
-			}
-		case "replace":
-			n++
-			st.W = fmt.Sprintf("%s.%d", p.ID, n)
-			ok, err := b.Remove(conc.Ctx, s.K)
-			if err != nil {
-				return fail(err)
-			}
-			if !ok {
-				return fail(fmt.Errorf("register %s not found for replace", s.K))
-			}
-			ok, err = b.Add(conc.Ctx, s.K, st.W)
-			if err != nil {
-				return fail(err)
-			}
-			st.OK = ok
-			if !ok {
-				return fail(fmt.Errorf("re-add of %s returned false", s.K))
-			}
-		case "add":
-			n++
-			st.W = fmt.Sprintf("%s.%d", p.ID, n)
-			ok, err := b.Add(conc.Ctx, s.K, st.W)
-			if err != nil {
-				return fail(err)
-			}
-			st.OK = ok
-		case "remove":
-			ok, err := b.Remove(conc.Ctx, s.K)
-			if err != nil {
-				return fail(err)
-			}
-			st.OK = ok
+	b, p := l.b, l.p
+	st := Step{Kind: s.Kind, K: s.K}
+	switch s.Kind {
+	case "read", "rmw":
+		ok, err := b.Find(conc.Ctx, s.K, false)
+		if err != nil {
+			l.fail(err)
+			return
 		}
-		t.Steps = append(t.Steps, st)
+		if !ok {
+			l.fail(fmt.Errorf("register %s not found", s.K)) // registers are never removed
+			return
+		}
+		v, err := b.GetCurrentValue(conc.Ctx)
+		if err != nil {
+			l.fail(err)
+			return
+		}
+		st.Saw, st.OK = v, true
+		if s.Kind == "rmw" {
+			l.n++
+			st.W = fmt.Sprintf("%s.%d", p.ID, l.n)
+			ok, err := b.UpdateCurrentValue(conc.Ctx, st.W)
+			if err != nil {
+				l.fail(err)
+				return
+			}
+			if !ok {
+				l.fail(fmt.Errorf("UpdateCurrentValue(%s) returned false", s.K))
+				return
+			}
+		}
+	case "replace":
+		l.n++
+		st.W = fmt.Sprintf("%s.%d", p.ID, l.n)
+		ok, err := b.Remove(conc.Ctx, s.K)
+		if err != nil {
+			l.fail(err)
+			return
+		}
+		if !ok {
+			l.fail(fmt.Errorf("register %s not found for replace", s.K))
+			return
+		}
+		ok, err = b.Add(conc.Ctx, s.K, st.W)
+		if err != nil {
+			l.fail(err)
+			return
+		}
+		st.OK = ok
+		if !ok {
+			l.fail(fmt.Errorf("re-add of %s returned false", s.K))
+			return
+		}
+	case "add":
+		l.n++
+		st.W = fmt.Sprintf("%s.%d", p.ID, l.n)
+		ok, err := b.Add(conc.Ctx, s.K, st.W)
+		if err != nil {
+			l.fail(err)
+			return
+		}
+		st.OK = ok
+	case "remove":
+		ok, err := b.Remove(conc.Ctx, s.K)
+		if err != nil {
+			l.fail(err)
+			return
+		}
+		st.OK = ok
+	}
+	l.t.Steps = append(l.t.Steps, st)
+}
+
+// finish commits (or voluntarily rolls back) the transaction.
+func (l *live) finish(clock *conc.Clock, abort bool) T {
+	if l.dead {
+		return l.t
+	}
+	if abort {
+		l.t.Aborted = true
+		l.t.Call = clock.Tick()
+		l.tx.Rollback(conc.Ctx)
+		l.t.Ret = clock.Tick()
+		return l.t
+	}
+	l.t.Call = clock.Tick()
+	cerr := l.tx.Commit(conc.Ctx)
+	l.t.Ret = clock.Tick()
+	if cerr != nil {
+		l.t.Err = cerr.Error()
+	}
+	return l.t
+}
+
+func execTxn(db sopx.DB, clock *conc.Clock, p plannedTxn) T {
+	l := beginLive(db, p)
+	for _, s := range p.Steps {
+		l.step(s)
+	}
+	if l.dead {
+		return l.t
 	}
 	time.Sleep(p.Delay)
-	if p.Abort {
-		t.Aborted = true
-		t.Call = clock.Tick()
-		tx.Rollback(conc.Ctx)
-		t.Ret = clock.Tick()
-		return t
-	}
-	t.Call = clock.Tick()
-	cerr := tx.Commit(conc.Ctx)
-	t.Ret = clock.Tick()
-	if cerr != nil {
-		t.Err = cerr.Error()
-	}
-	return t
+	return l.finish(clock, p.Abort)
 }
 
 // ---- the oracle: porcupine, one operation per committed transaction, all on the same interval ----
@@ -434,10 +497,19 @@ func check(init map[string]string, committed []T, final map[string]string) (stri
 					}
 					st[s.K] = s.W
 				case "add":
-					if _, ok := st[s.K]; !ok {
+					// Add's result is an observation too: true = the key was absent, false = it was present
+					_, present := st[s.K]
+					if present == s.OK {
+						return false, state
+					}
+					if !present {
 						st[s.K] = s.W
 					}
 				case "remove":
+					// Remove's result is an observation: true = the key was there, false = it was not
+					if _, present := st[s.K]; present != s.OK {
+						return false, state
+					}
 					delete(st, s.K)
 				}
 			}
@@ -472,18 +544,42 @@ func Run(r *report.Run) int {
 	rounds := r.Pick(200, 5000)
 	lines, died := par.Run(r, "c02-worker", 8, rounds, 1700, nil)
 	conc.ReportDeaths(r, "C02", died)
+	crounds := r.Pick(48, 800)
+	clines, cdied := par.Run(r, "c02c-worker", 6, crounds, 1700, nil)
+	conc.ReportDeaths(r, "C02", cdied)
+	type tagged struct {
+		par.Line
+		mode string
+	}
+	var all []tagged
 	for _, l := range lines {
+		all = append(all, tagged{l, "inprocess"})
+	}
+	for _, l := range clines {
+		all = append(all, tagged{l, "clustered"})
+	}
+	drounds := r.Pick(96, 2000)
+	dlines, ddied := par.Run(r, "c02c-worker", 6, drounds, 1700, nil, "directed")
+	conc.ReportDeaths(r, "C02", ddied)
+	for _, l := range dlines {
+		all = append(all, tagged{l, "clustered-directed"})
+	}
+	for _, l := range all {
 		var res RoundRes
 		if json.Unmarshal(l.Res, &res) != nil {
 			continue
 		}
 		if res.Harness != "" {
-			r.Inconclusive("harness")
+			r.Inconclusive("harness:" + l.mode)
+			r.Set("last_harness_problem_"+l.mode, res.Harness)
 			continue
 		}
-		r.Eval(res.Sig, res.NonTrivial)
-		r.Count("committed_transactions", int64(res.Committed))
-		r.Count("failed_or_aborted_transactions", int64(res.Failed))
+		r.Eval(l.mode+":"+res.Sig, res.NonTrivial)
+		r.Count("committed_transactions:"+l.mode, int64(res.Committed))
+		r.Count("failed_or_aborted_transactions:"+l.mode, int64(res.Failed))
+		if res.NonTrivial {
+			r.Count("nontrivial_rounds:"+l.mode, 1)
+		}
 		if l.Round < 2 {
 			r.Sample(res)
 		}
@@ -497,20 +593,28 @@ func Run(r *report.Run) int {
 			if i := strings.Index(res.Problem, "CLASS="); i >= 0 {
 				cls = res.Problem[i+6:]
 			}
-			if strings.Contains(res.Problem, "duplicate") {
+			if strings.Contains(res.Problem, "process-crash") {
+				cls = "process-crash"
+			} else if strings.Contains(res.Problem, "duplicate") {
 				cls = "duplicate-key"
 			} else if strings.Contains(res.Problem, "unreadable") {
 				cls = "final-unreadable"
 			}
-			r.Violation("C02:inprocess:"+res.Profile+":"+cls, map[string]any{"round": l.Round, "seed": r.Seed, "history": res})
+			r.Violation("C02:"+l.mode+":"+res.Profile+":"+cls, map[string]any{"round": l.Round, "seed": r.Seed, "history": res})
 		}
 	}
 	if len(lines) < rounds*9/10 {
 		r.Broken("only %d of %d rounds reported", len(lines), rounds)
 	}
+	if len(dlines) < drounds*9/10 {
+		r.Broken("only %d of %d directed clustered rounds reported", len(dlines), drounds)
+	}
+	if len(clines) < crounds*9/10 {
+		r.Broken("only %d of %d clustered rounds reported", len(clines), crounds)
+	}
 	return r.Finish(rule, assumptions, 10)
 }
 
-const rule = "rounds of 3-7 goroutines x 1-2 transactions (public path, ForWriting and ForReading) over 4-8 register keys spread over several nodes plus set keys: read-only snapshots, read-modify-write, read-A-write-B, blind adds of fresh keys, blind removes, replace (remove + re-add of a register in one transaction: a new item under the same key), voluntary rollbacks; PRNG delays at L2 calls and before Commit, GOMAXPROCS cycle; history = per transaction the values it read and the unique values it wrote + commit result, stamped at the harness boundary; oracle = porcupine over one operation per committed transaction, all on the same interval (any serial order allowed), plus the quiescent final scan; only values read of existing keys and the final state decide; fingerprint = commit-order signature; non-trivial = >=2 committed transactions share a key and commits overlapped"
+const rule = "rounds of 3-7 goroutines x 1-2 transactions (public path, ForWriting and ForReading) over 4-8 register keys spread over several nodes plus set keys: read-only snapshots, read-modify-write, read-A-write-B, blind adds of fresh keys, blind removes, replace (remove + re-add of a register in one transaction: a new item under the same key), voluntary rollbacks; PRNG delays at L2 calls and before Commit, GOMAXPROCS cycle; history = per transaction the values it read and the unique values it wrote + commit result, stamped at the harness boundary; oracle = porcupine over one operation per committed transaction, all on the same interval (any serial order allowed), plus the quiescent final scan; values read of existing keys, the found/not-found results of Add and Remove, and the final state decide; fingerprint = commit-order signature; non-trivial = >=2 committed transactions share a key and commits overlapped. CLUSTERED half: rounds of 2-3 OS processes sharing only the store folder and a Redis-protocol L2 (RESP stub), 2-3 waves of 1-3 transactions per process (same vocabulary; each process keeps its L1 cache across waves, so later waves run over caches that other processes' commits have outdated), final scan by a fresh process; same oracle; non-trivial = committed transactions of >=2 different processes touched one key. CLUSTERED-DIRECTED: same processes, every process first warms its L1 cache (reads every register, writes one), then 2-3 episodes in which the harness drives a PRNG-chosen STEP-BY-STEP interleaving (one command at a time, no timing) of 2-3 transactions living in different processes, each episode followed by a read-only transaction in every process; fingerprint = the schedule; a node process that dies with a sop frame in its trace is a violation (process-crash)"
 
-var assumptions = []string{"store pre-seeded (README precondition)", "standalone in-memory L2, single process (clustered multi-process half not built yet)", "NoCheck mode is not part of the vocabulary", "porcupine timeout 60 s => inconclusive"}
+var assumptions = []string{"store pre-seeded (README precondition)", "in-process half: standalone in-memory L2; clustered half: the Redis SERVER is the RESP stub of kit/resp (the adapter and go-redis client are the real ones)", "NoCheck mode is not part of the vocabulary", "porcupine timeout 60 s => inconclusive"}
